@@ -264,6 +264,13 @@ def colour_ok(eng, st, v):
         return colour_text_ok(v.known), 'literal %r' % v.known
     p = v.prov
     if isinstance(p, tuple) and p:
+        if p[0] == 'either':
+            # one of several values (outcomes of a helper joined by the engine): every one must be a colour
+            for alt in p[1]:
+                ok_, why_ = colour_ok(eng, st, alt)
+                if not ok_:
+                    return False, 'one of the possible values: ' + why_
+            return bool(p[1]), 'each of the %d possible values is a colour' % len(p[1])
         if p[0] == 'table-value' and p[1] in COLOUR_TABLES:
             # decided on the members of the evaluated table, not on its name
             wrong = [t for t in (p[2] if len(p) > 2 else ()) if not colour_text_ok(t)]
